@@ -798,8 +798,9 @@ def main():
     import translate_eq
     import translate_indx
     import translate_strides
+    import translate_missing
     failed = {}
-    ERR = (Unsupported, translate_pyx.Unsupported, translate_walk.Unsupported, translate_eq.Unsupported, translate_indx.Unsupported, translate_strides.Unsupported,
+    ERR = (Unsupported, translate_pyx.Unsupported, translate_walk.Unsupported, translate_eq.Unsupported, translate_indx.Unsupported, translate_strides.Unsupported, translate_missing.Unsupported,
            StopIteration, SyntaxError, KeyError, IndexError, AttributeError)
 
     def piece(name, path, gen, stub_import=None):
@@ -823,6 +824,8 @@ def main():
     piece("indx_save", "IndxSaveGen.lean", lambda: translate_indx.generate(rd("indxio.py")), "CatiiModel.Indx")
     piece("indx_load", "IndxLoadGen.lean", lambda: translate_indx.generate_load(rd("indxio.py")), "CatiiModel.Indx")
     piece("strides", "StridesGen.lean", lambda: translate_strides.generate(rd("xcubes.py")), "CatiiModel.Prelude")
+    piece("missing_rule", "MissingGen.lean",
+          lambda: translate_missing.generate([("ffuncs", rd("ffuncs.py")), ("xfuncs", rd("xfuncs.py"))]), "CatiiModel.Prelude")
     return 3 if failed else 0
 
 
